@@ -193,7 +193,12 @@ func c05Gen() *rapid.Generator[c05Case] {
 		case 1, 2: // deep trees (recursion depth, stack growth): up to 90 levels
 			maxNodes, maxDepth = 200, 90
 		}
-		f := genForest(forestParams{maxNodes: maxNodes, maxDepth: maxDepth, names: names, oneRoot: !strings.HasPrefix(entry, "md")}).Draw(t, "forest")
+		var f model.Forest
+		if maxDepth > 10 {
+			f = genDeepForest(names, !strings.HasPrefix(entry, "md")).Draw(t, "deepForest")
+		} else {
+			f = genForest(forestParams{maxNodes: maxNodes, maxDepth: maxDepth, names: names, oneRoot: !strings.HasPrefix(entry, "md")}).Draw(t, "forest")
+		}
 		c := c05Case{Forest: f, Entry: entry, Branch: genBranch().Draw(t, "branch"), StopAt: -1}
 		c.Sp = genSpelling(f.HeadingOK()).Draw(t, "spelling")
 		if rapid.Bool().Draw(t, "stop") {
